@@ -113,7 +113,7 @@ void Lexer::lex()
     // Line and column...
     std::string curFilePath = tree_->filePath();
     tree_->relayLineDirective(0, 1, curFilePath);
-    tree_->relayLineStart(0);
+    tree_->relayLineStart(0, 0);
     std::vector<std::pair<unsigned int, unsigned int>> expansions;
     unsigned int curExpansionIdx = 0;
 
@@ -826,7 +826,7 @@ void Lexer::yyinput()
 
     if (UNLIKELY(yychar_ == '\n')) {
         ++yylineno_;
-        tree_->relayLineStart(offset_ + 1);
+        tree_->relayLineStart(offset_ + 1, yytext_ - c_strBeg_ + 1);
     }
 }
 
